@@ -79,6 +79,10 @@ type poolTask struct {
 	done chan struct{}
 	out  []poolCall
 	t0   time.Time // simulated time at which the current call started
+	// cold start: construct starts the construction of the handler (nil once started);
+	// constructing is closed when the handler exists (nil channel = constructed)
+	construct    func()
+	constructing chan struct{}
 }
 
 type poolEnv struct {
@@ -117,6 +121,22 @@ func (e *poolEnv) startEvents() []kernel.Event {
 		if tk.busy || tk.next >= len(tk.ops) {
 			continue
 		}
+		if tk.construct != nil {
+			evs = append(evs, kernel.Event{Label: "construct " + tk.name, Owner: tk.name, Do: func() {
+				c := tk.construct
+				tk.construct = nil
+				c()
+			}})
+			continue
+		}
+		if tk.constructing != nil {
+			select {
+			case <-tk.constructing:
+				tk.constructing = nil
+			default:
+				continue
+			}
+		}
 		evs = append(evs, kernel.Event{Label: "call " + tk.name, Owner: tk.name, Do: func() {
 			op := tk.ops[tk.next]
 			tk.next++
@@ -137,6 +157,22 @@ func (e *poolEnv) anyBusy() bool {
 	for _, tk := range e.tasks {
 		if tk.busy {
 			return true
+		}
+	}
+	return false
+}
+
+func (e *poolEnv) anyConstructing() bool {
+	for _, tk := range e.tasks {
+		if tk.construct != nil {
+			continue
+		}
+		if tk.constructing != nil {
+			select {
+			case <-tk.constructing:
+			default:
+				return true
+			}
 		}
 	}
 	return false
@@ -171,7 +207,7 @@ func (e *poolEnv) drive(extra func() []kernel.Event, tick time.Duration, maxIdle
 			evs = append(evs, extra()...)
 		}
 		// the clock may always move while calls are outstanding (batch delay expiry)
-		if e.anyBusy() {
+		if e.anyBusy() || e.anyConstructing() {
 			evs = append(evs, kernel.Event{Label: "tick", Do: func() { w.Advance(tick) }})
 		}
 		onlyTick := len(evs) == 1 && evs[0].Label == "tick"
@@ -230,6 +266,9 @@ func setupPool(w *kernel.World, p Plan, res *Result) *poolEnv {
 	w.ProcAll = false
 	w.SegMode = p.Seg
 	w.Run.ParkSubmit = true
+	// the relay table's lock and the per-relay "add a connection" lock are kernel-granted:
+	// callers that wait for the relay to come into being are released in a decided order
+	w.Run.ManagePkgs = []string{"/handlers/memcached/batched"}
 	e := &poolEnv{p: p, w: w, res: res}
 	e.tier = w.AddTier("l1", fmt.Sprintf("/sim/run%d/pool.sock", w.Run.ID))
 	base := w.AddTier("base", fmt.Sprintf("/sim/run%d/base.sock", w.Run.ID))
@@ -253,13 +292,35 @@ func setupPool(w *kernel.World, p Plan, res *Result) *poolEnv {
 	// the first handler construction creates the relay and its first connection; that
 	// blocks on the dial, which the kernel has to release, so it runs on a task goroutine
 	ready := make(chan struct{})
-	go func() {
+	if p.X["cold"] != 0 {
+		// cold start: the backend does not accept connections yet and every caller
+		// constructs its handler on its own goroutine (as every client connection does);
+		// the first one creates the relay and waits for the pool's first connection
+		e.tier.Up = false
 		for i, prog := range p.Progs {
-			h, _ := hc()
-			e.tasks = append(e.tasks, &poolTask{name: fmt.Sprintf("t%d", i), h: h, ops: prog})
+			tk := &poolTask{name: fmt.Sprintf("t%d", i), ops: prog}
+			// the construction is an event of its own: which caller comes first (and creates
+			// the relay) is the kernel's choice
+			tk.construct = func() {
+				tk.constructing = make(chan struct{})
+				go func() {
+					w.Run.NameGoroutine(tk.name)
+					tk.h, _ = hc()
+					close(tk.constructing)
+				}()
+			}
+			e.tasks = append(e.tasks, tk)
 		}
 		close(ready)
-	}()
+	} else {
+		go func() {
+			for i, prog := range p.Progs {
+				h, _ := hc()
+				e.tasks = append(e.tasks, &poolTask{name: fmt.Sprintf("t%d", i), h: h, ops: prog})
+			}
+			close(ready)
+		}()
+	}
 	w.Interleave = false
 	w.Settle()
 	w.Interleave = true
@@ -560,6 +621,10 @@ func execC13(t *testing.T, p Plan, src kernel.Source) Result {
 		downs := int(p.X["downs"])
 		downFor := time.Duration(p.X["down_ms"]) * time.Millisecond
 		var downSince time.Time
+		if p.X["cold"] != 0 {
+			downSince = time.Now()
+			w.Stat.FaultsFired["backend_down"]++
+		}
 		faultsLeft := func() int {
 			n := cuts + downs
 			n += len(e.tier.Faults)
@@ -643,7 +708,11 @@ func execC13(t *testing.T, p Plan, src kernel.Source) Result {
 		var fresh []*poolTask
 		var opq uint32 = 900000
 		for i := 0; i < 1+int(p.Seed%3); i++ {
+			// constructed by the kernel goroutine itself: it must not park on the relay lock
+			saved := w.Run.ManagePkgs
+			w.Run.ManagePkgs = nil
 			h, _ := hc()
+			w.Run.ManagePkgs = saved
 			keys := []string{fmt.Sprintf("f%d-a", i), fmt.Sprintf("f%d-b", i)}
 			var prog []wire.Op
 			for j := 0; j < 4; j++ {
@@ -706,7 +775,11 @@ func genC13(seed uint64, tier string) Plan {
 	p.X["cuts"] = int64(pick(g, []int{0, 0, 1, 2, 4}))
 	p.X["downs"] = int64(pick(g, []int{0, 0, 0, 1}))
 	p.X["down_ms"] = int64(pick(g, []int{5, 150, 1200, 3000}))
-	if nf == 0 && p.X["cuts"] == 0 && p.X["downs"] == 0 {
+	if len(p.Progs) >= 2 && g.p(1, 6) {
+		// cold start: the backend is down while the callers construct their handlers
+		p.X["cold"] = 1
+	}
+	if nf == 0 && p.X["cuts"] == 0 && p.X["downs"] == 0 && p.X["cold"] == 0 {
 		p.X["cuts"] = 1
 	}
 	return p
@@ -722,7 +795,7 @@ func init() {
 			}
 			return n > 0
 		},
-		Rule:       "C06's set-up (1-64 callers on one real pool, drawn pool options) with faults: the pooled connection that carries backend request #i is closed before the request is applied, after it is applied but before the reply, after n bytes of the reply (n from {1, 8, 23, 24, 25, 27, 28, 29, 40, 200}: inside header, at its end, inside extras, inside the value), or after the reply (i drawn over the whole request stream, up to 3 such faults per run, EPIPE or silent write mode); up to 4 cuts of a live pooled connection at kernel-chosen instants (idle or busy); the backend going down (all connections lost, dials refused) for 5 ms-3 s and coming back. While faults flow: no completion-time requirement; every call returns once with an error or with data this caller wrote (unique per caller, flags included), attributed to the right request, and a multi-key get without error has answered every key once. After the last fault: outstanding calls complete within the outage plus 8 simulated seconds, then a fresh fault-free workload through the same pool completes within 5 simulated seconds and equals the direct-handler baseline. Fault positions are sampled, not exhaustively enumerated; non-trivial = at least one fault fired; distinct = distinct plan hash",
+		Rule:       "C06's set-up (1-64 callers on one real pool, drawn pool options) with faults: the pooled connection that carries backend request #i is closed before the request is applied, after it is applied but before the reply, after n bytes of the reply (n from {1, 8, 23, 24, 25, 27, 28, 29, 40, 200}: inside header, at its end, inside extras, inside the value), or after the reply (i drawn over the whole request stream, up to 3 such faults per run, EPIPE or silent write mode); up to 4 cuts of a live pooled connection at kernel-chosen instants (idle or busy); the backend going down (all connections lost, dials refused) for 5 ms-3 s and coming back; in a sixth of the runs with two or more callers a cold start: the backend refuses connections while every caller constructs its handler on its own goroutine, and comes up after 5 ms-3 s. While faults flow: no completion-time requirement; every call returns once with an error or with data this caller wrote (unique per caller, flags included), attributed to the right request, and a multi-key get without error has answered every key once. After the last fault: outstanding calls complete within the outage plus 8 simulated seconds, then a fresh fault-free workload through the same pool completes within 5 simulated seconds and equals the direct-handler baseline. Fault positions are sampled, not exhaustively enumerated; non-trivial = at least one fault fired; distinct = distinct plan hash",
 		Real:       realPool,
 		Stub:       stubPool,
 		FaultKinds: []string{"close_before", "close_applied", "close_mid", "close_after", "cut_connection", "backend_down"},
